@@ -269,6 +269,12 @@ PARAM_CASES = [
     ("unknown-key", "range", "begin=3", r"invalid parameter\(s\): 'begin'"),
     ("unknown-key", "SELECT", "value=a", r"invalid parameter\(s\): 'value'"),
     ("rows-not-integer", "text", "rows=abc", r"Parameter rows must have an integer value"),
+    # a value with a second '=' (a typing slip: rows=3=4, randomize=true=false) is a bad value, not a shorter good one
+    ("rows-not-integer", "text", "rows=3=4", r"Parameter rows must have an integer value"),
+    ("randomize-invalid", "SELECT", "randomize=true=false", r"randomize must be set to true or false"),
+    ("max-pixels-not-integer", "image", "max-pixels=100=2", r"Parameter max-pixels must have an integer value"),
+    ("audio-quality-invalid", "audio", "quality=low=x", r"Invalid value for quality"),
+    ("seed-invalid", "SELECT", "randomize=true seed=5=6", r"seed value must be a number or a reference"),
     ("randomize-invalid", "SELECT", "randomize=maybe", r"randomize must be set to true or false"),
     ("seed-without-randomize", "SELECT", "seed=4", r"Parameters must include randomize=true to use a seed"),
     ("seed-invalid", "SELECT", "randomize=true seed=abc", r"seed value must be a number or a reference"),
